@@ -751,3 +751,29 @@ M("c18_borrow_mut_conversion_does_not_align", ["C18"], ["C18.R4", "C18.R1"], [
         if NewS::UP { self.align_to::<NewS::MinimumAlignment>(); }""")])
 M("c18_align_guard_aligns_to_inner", ["C18"], ["C18.R2"], [
     ("src/bump_align_guard.rs", "let addr = align_pos(S::UP, S::MIN_ALIGN, pos);", "let addr = align_pos(S::UP, 1, pos);")])
+
+# ---------------------------------------------------------------- C12
+M("c12_hint_unchecked_slack", ["C12"], ["C12.R1", "C12.R4"], [
+    ("src/chunk/size_config.rs", "size = attempt!(size.checked_add(MIN_CHUNK_ALIGN));", "size = size + MIN_CHUNK_ALIGN;")])
+M("c12_hint_without_slack", ["C12"], ["C12.R4"], [
+    ("src/chunk/size_config.rs", "size = attempt!(size.checked_add(MIN_CHUNK_ALIGN));", "size = attempt!(size.checked_add(0));")])
+M("c12_append_for_no_doubling", ["C12"], ["C12.R3"], [
+    ("src/raw_bump.rs", "let size = required_size.max(grown_size).calc_size().ok_or_else(B::capacity_overflow)?;",
+     "let _ = grown_size; let size = required_size.calc_size().ok_or_else(B::capacity_overflow)?;")])
+M("c12_hint_forgets_padding", ["C12"], ["C12.R4"], [
+    ("src/chunk/size_config.rs", "let required_size = attempt!(layout.size().checked_add(maximum_required_padding));",
+     "let _ = maximum_required_padding; let required_size = attempt!(layout.size().checked_add(0));")])
+M("c12_down_hint_header_before_bytes_missing", ["C12"], ["C12.R4"], [
+    ("src/chunk/size_config.rs", """            size = attempt!(offset_add_layout(size, assumed_malloc_overhead_layout));
+            size = attempt!(size.checked_add(bytes));
+            size = attempt!(offset_add_layout(size, chunk_header_layout));""", """            size = attempt!(offset_add_layout(size, assumed_malloc_overhead_layout));
+            size = attempt!(size.checked_add(bytes));
+            size = attempt!(size.checked_add(chunk_header_layout.size()));""")])
+M("c12_size_not_realigned_after_overhead", ["C12"], ["C12.R4"], [
+    ("src/chunk/size_config.rs", """            let size_without_overhead = size - assumed_malloc_overhead_layout.size();
+            size = self.align_size(size_without_overhead);""", """            let size_without_overhead = size - assumed_malloc_overhead_layout.size();
+            size = size_without_overhead;""")])
+M("c12_reserve_swallows_overflow", ["C12", "C07"], ["C12.R2", "C07.R5"], [
+    ("src/raw_bump.rs", """                let new_chunk = NonDummyChunk::<A, S>::new(
+                    ChunkSize::<A, S>::from_capacity(layout).ok_or_else(E::capacity_overflow)?,""", """                let new_chunk = NonDummyChunk::<A, S>::new(
+                    ChunkSize::<A, S>::from_capacity(layout).unwrap_or(ChunkSize::MINIMUM),""")])
